@@ -140,6 +140,9 @@ func loadProgram(dir string, tags string, env []string) (*Program, error) {
 						if tn == nil {
 							continue
 						}
+						if _, isIface := tn.Type().Underlying().(*types.Interface); isIface && suffix == "" {
+							rootIfaces[tn.Name()] = true
+						}
 						st, ok := tn.Type().Underlying().(*types.Struct)
 						if !ok {
 							continue
